@@ -18,6 +18,8 @@ All theorems quantify over EVERY operation sequence from the initial empty table
 import SigModel.Model.QTable
 import SigModel.Lemmas.C17
 import SigModel.Lemmas.C17e
+import SigModel.Model.OtsdbQuery
+import SigModel.Lemmas.C17f
 
 namespace SigModel.Props.C17
 open SigModel.QTable
@@ -241,5 +243,91 @@ example : (run (init 2) [.startc 1 true, .restart 1 2 true]).running.map Prod.fs
 /-- non-vacuity (forced starts): the bound of `running_bounded_with_forced` is attained -/
 example : (run (init 1) [.start 1 true, .start 2 true, .startc 3 true]).running.length = 1 + 2 := by
   decide
+
+/-! ## "… answers with results or an error … and the process keeps running": the small request grammars
+
+The parsers of the OpenTSDB query route (`m=agg:downsample:metric{k=v|w,…}`, `start=…-ago`) as total functions from
+byte strings to value / error (Model/OtsdbQuery.lean, the code AS REPAIRED by build/patches/c17-1 and c17-2), tied to
+the real functions by the suite `alive` (lines `om` / `ot`).  `Outcome.panic` / `Ago.panic` stand for a Go panic on the
+request goroutine, which ends the server process: the repaired parsers never produce it, the former ones
+(`parseMetricTagOld`, `agoOld`) do, exactly on the texts described. -/
+namespace Otsdb
+open SigModel.OtsdbQuery SigModel.Lemmas.C17f
+
+/-- for EVERY byte string the tag-list parser answers with a value or an error -/
+theorem metric_tag_total (m : Bytes) : parseMetricTag m ≠ .panic := parseMetricTag_never_panics m
+
+/-- for EVERY byte string the aggregator / downsampler parser answers with a value or an error -/
+theorem aggregator_total (m : Bytes) : parseAggDs m ≠ .panic := parseAggDs_never_panics m
+
+/-- for EVERY byte string the relative-time parser answers with a value or an error -/
+theorem relative_time_total (s : Bytes) : ago s ≠ .panic := ago_never_panics s
+
+/-- the accepted language of the tag list: the first '{' stands in front of the first '}' and every comma-separated
+item between the two holds exactly one '=' (`indexOf_some_iff`: `indexOf c m = some i` says that position `i` is the
+FIRST occurrence of `c`) -/
+theorem metric_tag_accepts_iff (m : Bytes) :
+    (parseMetricTag m).isOk = true ↔
+      ∃ ts te, indexOf 123 m = some ts ∧ indexOf 125 m = some te ∧ ts < te ∧
+        ∀ item ∈ splitOn 44 (inner m ts te), item.count 61 = 1 :=
+  parseMetricTag_isOk_iff m
+
+/-- the metric name of an accepted text holds no ':' (it starts behind the last ':' in front of the tags) -/
+theorem metric_name_has_no_colon (m : Bytes) (metric : Bytes) (fs : List TagFilter)
+    (h : parseMetricTag m = .ok (metric, fs)) : 58 ∉ metric := by
+  unfold parseMetricTag at h
+  split at h
+  · split at h
+    · cases h
+    · split at h
+      · injection h with h
+        injection h with h1 _
+        rw [← h1]
+        exact metricOf_no_colon _
+      · cases h
+  · cases h
+
+/-- BEFORE the repair the parser panicked exactly when a ':' stands at or behind the first '{', or the first '}' in
+front of the first '{' -/
+theorem metric_tag_old_panics_iff (m : Bytes) :
+    parseMetricTagOld m = .panic ↔
+      (∃ i ts, lastIndexOf 58 m = some i ∧ indexOf 123 m = some ts ∧ ts ≤ i) ∨
+      (∃ ts te, indexOf 123 m = some ts ∧ indexOf 125 m = some te ∧ te < ts) :=
+  parseMetricTagOld_panic_iff m
+
+/-- the statement "answers with a value or an error" is FALSE for the parser before the repair:
+`m=avg:m{a:b=c}` (a ':' inside the tags) and `m=avg:m}{` -/
+theorem metric_tag_total_old_counterexample : ¬ (∀ m : Bytes, parseMetricTagOld m ≠ .panic) := by
+  intro h
+  exact h [97, 118, 103, 58, 109, 123, 97, 58, 98, 61, 99, 125] (by decide)
+
+theorem metric_tag_old_brace_order_counterexample :
+    parseMetricTagOld [97, 118, 103, 58, 109, 125, 123] = .panic := by decide
+
+/-- the repair changes nothing else: wherever the former parser returned, the repaired one returns the same -/
+theorem metric_tag_repair_conservative (m : Bytes) (h : parseMetricTagOld m ≠ .panic) :
+    parseMetricTagOld m = parseMetricTag m :=
+  parseMetricTagOld_eq_of_ne_panic m h
+
+/-- the accepted language of relative times: `[+-]digits` (an int64), one of the units s m h d w n y, "-ago" -/
+theorem relative_time_accepts_iff (s : Bytes) :
+    ago s = .relOk ↔ ∃ n u, s = n ++ u :: agoSuffix ∧ u ∈ timeUnits ∧ atoiOk n = true :=
+  ago_relOk_iff s
+
+/-- BEFORE the repair `start=-ago` (no duration at all) panicked, and nothing else did -/
+theorem relative_time_old_panics_iff (s : Bytes) : agoOld s = .panic ↔ s = agoSuffix := agoOld_panic_iff s
+
+theorem relative_time_repair_conservative (s : Bytes) (h : agoOld s ≠ .panic) : agoOld s = ago s :=
+  agoOld_eq_ago_of_ne_panic s h
+
+/-- non-vacuity: `sum:1m-avg:cpu{host=h1|h2,job="c17"}` is accepted with the expected parts (metric cpu; host = h1 or
+h2; job = c17, unquoted; the operator stays `or` after the first item with two values) -/
+example : parseMetricTag [115, 117, 109, 58, 49, 109, 45, 97, 118, 103, 58, 99, 112, 117, 123, 104, 111, 115, 116, 61, 104, 49, 124, 104, 50, 44, 106, 111, 98, 61, 34, 99, 49, 55, 34, 125] =
+    .ok ([99, 112, 117], [⟨[104, 111, 115, 116], [104, 49], .or⟩, ⟨[104, 111, 115, 116], [104, 50], .or⟩, ⟨[106, 111, 98], [99, 49, 55], .or⟩]) := by decide
+
+example : parseAggDs [115, 117, 109, 58, 49, 109, 45, 97, 118, 103, 58, 99, 112, 117, 123, 104, 111, 115, 116, 61, 104, 49, 124, 104, 50, 44, 106, 111, 98, 61, 34, 99, 49, 55, 34, 125] = .ok (.sum, ⟨1, [109], .avg, false⟩) := by decide
+
+example : ago [49, 53, 109, 45, 97, 103, 111] = .relOk ∧ ago [45, 97, 103, 111] = .relErr ∧ ago [49, 55, 48, 48, 48, 48, 48, 48, 48, 48] = .abs := by decide
+end Otsdb
 
 end SigModel.Props.C17
